@@ -143,8 +143,35 @@ def _container(kind, objs):
     return cls(*objs) if objs else cls()
 
 
+_PRE = [0]
+
+
+def _prehistory(o, key):
+    """read-only things a caller may have done before the transformation (about every second case, decided by the case's own data so that a replay does the same): a container that was iterated
+    and the loop left early; a shape whose sampled points were computed over a PART of its domain"""
+    if not key % 2:
+        return
+    from geomdl import multi
+    try:
+        if isinstance(o, multi.AbstractContainer):
+            for g_ in o:
+                break
+        else:
+            dom = o.domain if o.pdimension > 1 else [o.domain]
+            lo, hi = dom[0]
+            mid = lo + (hi - lo) / 2
+            if o.pdimension == 1:
+                o.evaluate(start=mid)
+            else:
+                o.evaluate(start_u=mid)
+    except Exception:
+        pass
+
+
 def _apply(o, x, inplace):
     from geomdl import operations
+    import zlib
+    _prehistory(o, zlib.crc32(repr((x, inplace, type(o).__name__)).encode()))
     if x[0] == 'T':
         return operations.translate(o, [q(v) for v in x[1]], inplace=inplace)
     if x[0] == 'S':
